@@ -1,6 +1,8 @@
 import L21.Props.C14
+import L21.Props.C14Conv
 import L21.Props.C14Lib
 import L21.Props.C14RT
+import L21.Props.C17Sorted
 #print axioms L21.RawProto.c14_rect_roundtrip
 #print axioms L21.RawProto.c14_rect_second_trip
 #print axioms L21.RawProto.c14_rect_same_region
@@ -19,3 +21,5 @@ import L21.Props.C14RT
 #print axioms L21.RawProto.c14_abstract
 #print axioms L21.RawProto.c14_converse_fails_on_second_purpose_number
 #print axioms L21.RawProto.c14_converse_no_exporter
+#print axioms L21.RawProto.c14_reexport_keeps_cell_order
+#print axioms L21.RawProto.c14_message_roundtrip_layouts
